@@ -50,6 +50,8 @@ def run(run, replay=None):
                         if r.case.inp != "":
                             fails.append(("panic", {"kind": "panic"}, dict(r.case.describe(), context=ctx)))
                         continue
+                    if r.case.inp == "":
+                        continue        # the property quantifies over inputs of length >= 1
                     for cd in cds:
                         n += 1
                         why = check_candidate(r.case.inp, cd)
